@@ -1,4 +1,5 @@
 import PlaybackProofs.RecorderIdle
+import PlaybackProofs.Threads
 /-!
 # C04 — Recording is transparent to the recorded service
 
@@ -51,6 +52,48 @@ theorem C04_nested_operation_counterexample (ao : AliasOracle) :
       (runOperation ao cfg s p).2 ≠ (runPlain s.journal p).2 :=
   ⟨{ cls := "Op" }, { enabled := true, active := some { id := 0, data := [], params := {} } },
    .done (.out (.ret (.atom "1"))), rfl, rfl, by simp [runOperation, inPlaybackMode, runPlain]⟩
+
+/-! ### interceptions in flight on worker threads while the recording is discarded or finalised
+
+`PlaybackModel.Threads`: every read and write of the shared recorder object is its own step; a schedule is an arbitrary list of
+thread ids (0 = the operation's main thread, which discards or runs the `finally` block field by field; i+1 = worker i, which
+makes intercepted calls).  **Partial**: the theorem quantifies over all schedules of the MODEL's micro-steps; which switch
+points CPython really offers is explored by the scheduler-driven tie only. -/
+open PlaybackModel.Threads in
+/-- Under every schedule the repaired interception code never raises, and each worker is handed exactly the outcomes of
+its wrapped bodies, in order — whatever the main thread (or another worker's failing capture) does to the recording
+meanwhile. -/
+theorem C04_threads (sys : Sys) (sched : List Nat) :
+    ∃ sys', runSched stepWorker sys sched = .ok sys' ∧
+      sys'.workers.map Worker.plan = sys.workers.map Worker.plan ∧
+      ∀ w ∈ sys'.workers, w.todo = [] → w.handed = w.plan := by
+  obtain ⟨sys', h1, h2⟩ := runSched_ok sched sys
+  refine ⟨sys', h1, h2, ?_⟩
+  intro w _ hw
+  simp [Worker.handed, Worker.plan, hw]
+
+open PlaybackModel.Threads in
+/-- The code before the `fix:` commit (F1) raises into the worker's caller: the main thread discards between the worker's
+snapshot and its use of the recording parameters. -/
+theorem C04_threads_unfixed_counterexample :
+    runSched stepWorkerUnfixed
+      { shared := { enabled := true, active := some 0, copyFlag := some false, forced := false, counterReset := 0,
+                    recs := [⟨[], false⟩], aborts := [], saves := [] },
+        main := { pc := .discardRead, keep := true },
+        workers := [{ todo := [⟨some 1, .ret 5, false⟩], pc := .start, recSnap := none, parSnap := none, keyEff := none,
+                      toAbort := none, results := [] }] }
+      [1, 1, 0, 0, 0, 0, 1] = .error .attributeError := by rfl
+
+open PlaybackModel.Threads in
+/-- … and the same schedule on the repaired code hands the worker its body's value. -/
+theorem C04_threads_fixed_on_witness :
+    (runSched stepWorker
+      { shared := { enabled := true, active := some 0, copyFlag := some false, forced := false, counterReset := 0,
+                    recs := [⟨[], false⟩], aborts := [], saves := [] },
+        main := { pc := .discardRead, keep := true },
+        workers := [{ todo := [⟨some 1, .ret 5, false⟩], pc := .start, recSnap := none, parSnap := none, keyEff := none,
+                      toAbort := none, results := [] }] }
+      [1, 1, 0, 0, 0, 0, 1, 1, 1]).toOption.map (fun sys => sys.workers.map (·.results)) = some [[.ret 5]] := by decide
 
 /-! Non-vacuity: an idle, enabled recorder and a program with a failing key, a failing handler, a discard from a body
 and an interrupt. -/
